@@ -474,6 +474,19 @@ func (s *sim) crossStore(step int, strong bool, countOnly bool) error {
 			if field == "" {
 				continue
 			}
+			if !strong && s.opKind == "rename" && !countOnly {
+				// A refused rename must not rename anything: unlike a create or delete that
+				// fails half-way (documented as not atomic, and repaired by retrying), an
+				// engine-side rename that survives a refused request leaves the two stores
+				// disagreeing on the name of a channel both of them hold, and no later
+				// successful request on other channels repairs that.
+				s.exempt[ex] = true
+				if err := s.violation("metadata-engine-mismatch-after-refused-rename/"+field,
+					"step %d: the rename request was refused, yet metadata %v now differs in %s from the engine of node %d: {name=%q dt=%s index=%d virtual=%v isIndex=%v}", step, m, field, i, e.Name, e.DataType, e.Index, e.Virtual, e.IsIndex); err != nil {
+					return err
+				}
+				continue
+			}
 			if !strong {
 				// the weaker check after a failed request ignores fields; remember the pair so
 				// that later (strong) comparisons do not blame a later request for it
